@@ -58,9 +58,15 @@ ClassEdits(c) ==
     [] c = "scalar"   -> {Ed("trunc", 1), Ed("extend", 1), Ed("lead0", 1), Ed("cut", 1), Ed("inc", 0), Ed("zero", 0), Ed("allff", 0),
                           Ed("garbage", 0), Ed("empty", 0), Ed("sibling", 0)}
     [] c = "bigint"   -> {Ed("trunc", 1), Ed("lead0", 1), Ed("cut", 1), Ed("inc", 0), Ed("zero", 0), Ed("empty", 0), Ed("sibling", 0), Ed("garbage", 0)}
+    \* an RSA public exponent: the bigint damage, and chosen values - small, even, just around and far above F4 = 65537
+    [] c = "rsaexp"   -> {Ed("trunc", 1), Ed("lead0", 1), Ed("cut", 1), Ed("inc", 0), Ed("zero", 0), Ed("empty", 0), Ed("garbage", 0)}
+                          \cup {Ed("setint", n) : n \in {1, 2, 3, 17, 257, 65535, 65536, 65539, 65541, BigInt}}
     [] c = "opaque"   -> {Ed("trunc", 1), Ed("extend", 1), Ed("flip", 0), Ed("flip", 77), Ed("garbage", 0), Ed("zero", 0), Ed("empty", 0), Ed("sibling", 0)}
     [] c = "string"   -> {Ed("str", 0), Ed("str", 1), Ed("str", 2), Ed("absent", 0)}
     [] c = "url"      -> {Ed("str", 0), Ed("str", 3), Ed("str", 4), Ed("str", 5)}
+\* classes of the fields the minimum-strength table talks about: their edits are tried on EVERY base key in both tiers
+\* (each such edit leaves the rest of the key as it was: a declaration below the minimum over material that would work)
+StrengthClasses == {"aeskey", "sivkey", "hmackey", "hkdfkey", "tag", "keysize", "hash", "curve", "rsaexp"}
 \* classes whose values interact in the minimum-strength table: combined pairwise in the thorough tier
 SizeClasses == {"aeskey", "sivkey", "hmackey", "hkdfkey", "ikm", "tag", "cmactag", "iv", "keysize", "hash", "curve", "enum2"}
 
@@ -82,9 +88,9 @@ EcdsaPub(pre)  == {F(pre \o "version", "version"), F(pre \o "params", "msg"), F(
                    F(pre \o "params.curve", "curve"), F(pre \o "params.encoding", "enum2"), F(pre \o "x", "point"), F(pre \o "y", "point")}
 EdPub(pre)     == {F(pre \o "version", "version"), F(pre \o "key_value", "opaque")}
 RsaPkcs1Pub(pre) == {F(pre \o "version", "version"), F(pre \o "params", "msg"), F(pre \o "params.hash_type", "hash"),
-                     F(pre \o "n", "bigint"), F(pre \o "e", "bigint")}
+                     F(pre \o "n", "bigint"), F(pre \o "e", "rsaexp")}
 RsaPssPub(pre) == {F(pre \o "version", "version"), F(pre \o "params", "msg"), F(pre \o "params.sig_hash", "hash"),
-                   F(pre \o "params.mgf1_hash", "hash"), F(pre \o "params.salt_length", "saltlen"), F(pre \o "n", "bigint"), F(pre \o "e", "bigint")}
+                   F(pre \o "params.mgf1_hash", "hash"), F(pre \o "params.salt_length", "saltlen"), F(pre \o "n", "bigint"), F(pre \o "e", "rsaexp")}
 RsaPriv        == {F("version", "version"), F("public_key", "msg"), F("d", "bigint"), F("p", "bigint"), F("q", "bigint"),
                    F("dp", "bigint"), F("dq", "bigint"), F("crt", "bigint")}
 MlDsaPub(pre)  == {F(pre \o "version", "version"), F(pre \o "key_value", "opaque"), F(pre \o "params", "msg"), F(pre \o "params.ml_dsa_instance", "enum3")}
@@ -123,7 +129,7 @@ Composite(h) ==
   \cup (IF h = "private" THEN {F(ml \o ".value>public_key.key_value", "opaque"), F(cl \o ".value>public_key", "msg")} ELSE {})
 JwtEcdsaPub(pre) == {F(pre \o "version", "version"), F(pre \o "algorithm", "enum3"), F(pre \o "x", "point"), F(pre \o "y", "point"),
                      F(pre \o "custom_kid.value", "string")}
-JwtRsaPub(pre) == {F(pre \o "version", "version"), F(pre \o "algorithm", "enum3"), F(pre \o "n", "bigint"), F(pre \o "e", "bigint"),
+JwtRsaPub(pre) == {F(pre \o "version", "version"), F(pre \o "algorithm", "enum3"), F(pre \o "n", "bigint"), F(pre \o "e", "rsaexp"),
                    F(pre \o "custom_kid.value", "string")}
 JwtMlDsaPub(pre) == {F(pre \o "version", "version"), F(pre \o "algorithm", "enum3"), F(pre \o "key_value", "opaque"), F(pre \o "custom_kid.value", "string")}
 
@@ -189,7 +195,9 @@ KTFields(t) ==
 \* named base keys: the first is the representative used by the quick tier for field edits
 EcdsaBases == <<"P256_SHA256_DER", "P384_SHA512_P1363", "P384_SHA384_DER", "P521_SHA512_DER", "P256_SHA512_P1363",
                 "P384_SHA256_DER", "P521_SHA256_P1363", "P521_SHA384_DER", "P256_SHA1_DER", "P256_SHA224_DER">>      \* last five: hash weaker than curve / SHA-1 / SHA-224
-RsaBases == <<"RSA2048_F4", "RSA1024_F4", "RSA2047_F4", "RSA2048_E3", "RSA2048_E65539">>
+\* after the first: consistent keys GENERATED with a small modulus / with another exponent (they work if the declaration is honoured);
+\* the rsaexp edits on RSA2048_F4 give the other kind: a declared exponent over material that matches 65537
+RsaBases == <<"RSA2048_F4", "RSA1024_F4", "RSA2047_F4", "RSA2048_E3", "RSA2048_E17", "RSA2048_E65539", "RSA2048_EMAX">>
 HpkeBases == <<"HPKE_X25519_SHA256_AES128GCM", "HPKE_P256_SHA256_AES256GCM", "HPKE_X25519_SHA256_CHACHA20", "HPKE_P384_SHA384_AES256GCM",
                "HPKE_P521_SHA512_AES256GCM", "HPKE_XWING_SHA256_AES256GCM", "HPKE_MLKEM768_SHA256_AES256GCM",
                "HPKE_MLKEM1024_SHA384_AES256GCM">>      \* all seven KEMs: each has its own private/public validation path
